@@ -41,6 +41,8 @@ TRUSTED_EXTRA = ["scipy Kabsch / Hungarian solvers as oracles (contracts validat
 
 def regenerate(ctx: Ctx) -> None:
     ctx.gen_status.update(align_tr.regenerate())
+    from translate import transcripts as _tr
+    ctx.gen_status.update(_tr.constructor_wiring(['MolecularSimilarity', 'NetworkSampling']))
 
 
 # ----------------------------------------------------------------------------- helpers
